@@ -355,6 +355,7 @@ func registerIntrinsics(e *Engine) {
 	})
 	reg("vMapOrderSite", func(x *Exec, a []Value) Value {
 		x.mapSite = cint(x, a[0])
+		x.mapSites = 0 // sites are counted from here
 		return nil
 	})
 	reg("vParam", func(x *Exec, a []Value) Value {
@@ -488,6 +489,8 @@ func (x *Exec) sprintf(format string, args []Value) *StrVal {
 			n++
 		}
 		r.MinLen = n
+		r.OpFmt = format
+		r.OpArgs = args
 	}
 	return r
 }
@@ -526,12 +529,16 @@ func (x *Exec) sprintf0(format string, args []Value) *StrVal {
 		s, ok := x.sprintOperand(args[argi], verb)
 		argi++
 		if !ok {
-			return &StrVal{Opaque: true}
+			// the text rendered so far is known; what follows is not
+			return &StrVal{Opaque: true, OpPrefix: out}
+		}
+		if s.Opaque {
+			return x.concat(out, s)
 		}
 		out = x.concat(out, s)
 	}
 	if argi < len(args) {
-		return &StrVal{Opaque: true}
+		return &StrVal{Opaque: true, OpPrefix: out}
 	}
 	return out
 }
@@ -923,6 +930,9 @@ func (x *Exec) deepEqual(a, b Value) *Term {
 		bv, ok := b.(*StrVal)
 		if !ok {
 			return TFalse
+		}
+		if av.Opaque || bv.Opaque {
+			return x.opaqueEq(av, bv)
 		}
 		return strEq(av, bv)
 	case *SliceVal:
